@@ -128,6 +128,23 @@ func (m *FleetExitAttribution) AfterScan(ctx *h.ScanCtx) []h.Violation {
 	return out
 }
 
+// OwnPodsAndNodes: "each group is evaluated only from nodes carrying its label and pods selecting it".
+// Every disagreement between a scan and the reference decision computed from exactly those pods and
+// nodes (as listed now) is reported as a C12 violation.
+type OwnPodsAndNodes struct{ D *Decisions }
+
+func (m OwnPodsAndNodes) Key() string { return m.D.Key() }
+func (m OwnPodsAndNodes) AfterScan(ctx *h.ScanCtx) []h.Violation {
+	var out []h.Violation
+	for _, v := range m.D.AfterScan(ctx) {
+		if strings.Contains(v.Sig, "float-equality") {
+			continue
+		}
+		out = append(out, h.Violation{Prop: "C12", Sig: "C12/not-evaluated-from-its-own-pods-and-nodes/" + v.Sig, Msg: v.Msg})
+	}
+	return out
+}
+
 // NonInterference compares the journal of every group other than the perturbed one with the
 // journal of the unperturbed (root) execution of the same scenario, scan by scan.
 type NonInterference struct {
@@ -214,6 +231,8 @@ func C12Scenarios(tier string) []*h.Scenario {
 				switch g.Opts.Name {
 				case "a":
 					c11World(hh, as, g)
+					// a sizeable pod that selects no configured group (it may be re-created selecting a)
+					hh.W.AddPod(sim.PodOpt{CPUMilli: 2500, MemBytes: 64 << 20, Selector: map[string]string{"team": "somebody-else"}})
 				case "b":
 					// b scales down: taints, then reaps after the soft grace period
 					n := hh.W.AddNode(as, sim.NodeOpt{Age: 30 * Q})
@@ -249,6 +268,29 @@ func C12Scenarios(tier string) []*h.Scenario {
 				}
 			}})
 			ev = append(ev, evDescribeOmits(a.ASG.Name))
+			// a pod deleted and re-created under the same name between two scans: the largest pod of a now
+			// selects no configured group / a pod that selected none now selects a
+			ev = append(ev, h.Event{Label: "pod-recreated-same-name(a -> no group)", Apply: func(hh *h.Hist) {
+				var big *v1.Pod
+				for _, p := range hh.W.Pods {
+					if h.PodInGroup(p, &a) && (big == nil || p.Spec.Containers[0].Resources.Requests.Cpu().MilliValue() > big.Spec.Containers[0].Resources.Requests.Cpu().MilliValue()) {
+						big = p
+					}
+				}
+				if big != nil {
+					big.Spec.NodeSelector = map[string]string{"team": "somebody-else"}
+					big.Spec.Affinity = nil
+					big.UID = big.UID + "x"
+				}
+			}}, h.Event{Label: "pod-recreated-same-name(no group -> a)", Apply: func(hh *h.Hist) {
+				for _, p := range hh.W.Pods {
+					if p.Spec.NodeSelector["team"] == "somebody-else" {
+						p.Spec.NodeSelector = sel(a)
+						p.UID = p.UID + "y"
+						return
+					}
+				}
+			}})
 			ev = append(ev, h.Event{Label: "burst(a, affinity NotIn b)", Apply: func(hh *h.Hist) {
 				for i := 0; i < 3; i++ {
 					o := affinityPod(other, "", 1500, true)
@@ -511,7 +553,7 @@ func init() {
 			if s.Name == "c12.fleet-two" {
 				return []h.Monitor{Attribution{}, &FleetExitAttribution{}, &NearMiss{Seen: map[string]struct{}{}}}
 			}
-			return []h.Monitor{Attribution{}, &FleetExitAttribution{}, &NonInterference{S: s, Perturb: "a"}, &NearMiss{Seen: map[string]struct{}{}}}
+			return []h.Monitor{Attribution{}, &FleetExitAttribution{}, &NonInterference{S: s, Perturb: "a"}, OwnPodsAndNodes{NewDecisions()}, &NearMiss{Seen: map[string]struct{}{}}}
 		},
 		Bound: func(tier string) int {
 			if tier == "thorough" {
